@@ -6,7 +6,7 @@ import zlib
 
 from mc import enum_crn as ec
 from mc.core import Fail, Outcome, Sub, run_subs
-from mc.checks.c17 import SCHEMES
+from mc.checks.c17 import SCHEMES, scheme_lists
 
 PROPERTY = "C20"
 ASSUMPTIONS = [
@@ -56,8 +56,8 @@ def check(case):
     from synkit.CRN.Hypergraph.conversion import hypergraph_to_bipartite
 
     net = ec.parse_net(case)
-    scheme = SCHEMES[zlib.crc32(case.encode()) % 3]
-    H = ec.build_hypergraph(net, rules=scheme[0][: len(net)] if scheme[0] else None, ids=scheme[1][: len(net)] if scheme[1] else None)
+    rules, ids = scheme_lists(case, len(net))
+    H = ec.build_hypergraph(net, rules=rules, ids=ids)
     return judge(H, net)
 
 
